@@ -43,6 +43,7 @@ OUTERS = {
     "O16": [("u", ("ref", "InnerS", "union", "WrapS")), ("k", ("sc", "Int64"))],
 }
 RENAMES = ["none", "first", "all"]
+TIER = ["quick"]  # (set per shard process; replay uses the widest menus first and falls back)
 
 
 def describe(tier):
@@ -278,6 +279,13 @@ class World:
                         ev.append(("nest-hyb", oid, fn, "coincident"))
                     ev.append(("through", oid, fn))
                     ev.append(("move-nested", oid, fn))
+                    if holds_refs(fs[1]) and (oid == self.outer or TIER[0] == "thorough"):
+                        # the reference field of the NESTED part is bound through the part: to the helper of the same buffer
+                        # (possibly the very object it denotes already, or denoted before a dictionary nulled it through the
+                        # parent), to the helper of the other buffer (refused; it may be the original of what the part
+                        # refers to a duplicate of), to nothing
+                        for where in ("same", "other", "none"):
+                            ev.append(("nest-ref", oid, fn, where))
                 elif fs[0] == "ref":
                     ev.append(("ref-bind", oid, fn, "same"))
                     ev.append(("ref-bind", oid, fn, "other"))
@@ -401,6 +409,28 @@ class World:
             o["m"][fn] = pycopy.deepcopy(src["m"])
             if src["h"]._buffer is not o["h"]._buffer:
                 self.dup_refs(fs[1], o["m"][fn])
+        elif kind == "nest-ref":
+            _, oid, fn, where = ev
+            o = self.objs[oid]
+            fs = field_specs(o["cname"])[fn]
+            rf, rs = [(a, b) for a, b in INNERS[fs[1]] if b[0] == "ref"][0]
+            part = getattr(o["h"], self.pyname(oid, fn))
+            if where == "none":
+                setattr(part, self.ipy(fs[1], rf), None)
+                o["m"][fn][rf] = None
+                return None
+            sid = self.helpers[(rs[1], where)]
+            same_buffer = self.objs[sid]["h"]._buffer is o["h"]._buffer
+            try:
+                setattr(part, self.ipy(fs[1], rf), self.objs[sid]["h"])
+            except MemoryError:
+                if same_buffer:
+                    raise
+                return "refused"
+            if not same_buffer:
+                raise AssertionError("reference (of a nested part) to an object of another buffer accepted")
+            o["m"][fn][rf] = ("id", sid)
+            self.objs[sid]["movable"] = False
         elif kind == "ref-bind":
             _, oid, fn, where = ev
             o = self.objs[oid]
@@ -691,6 +721,7 @@ def step(w, ev, res):
 def run_shard(shard, tier, seed):
     oname, rename, first = shard
     res = common.ShardResult()
+    TIER[0] = tier
     depth = 3 if tier == "quick" else 4
     if tier == "thorough" and len(OUTERS[oname]) > 2:
         depth = 3
@@ -706,7 +737,7 @@ def run_shard(shard, tier, seed):
                 continue
             sig.add((o, f))
             fe = dict(feats, event=ev[0] if ev else "initial", after_refusal=bool(refused), depth=len(hist) + (1 if ev else 0), event_detail=str(ev[3]) if ev and len(ev) > 3 else (str(ev[1]) if ev and len(ev) > 1 else None))
-            res.violations.append(common.violation(o, f, fe, dict(cls=oname, rename=rename, hist_idx=hidx, ev_idx=ei, history=[list(map(str, e)) for e in hist], event=list(map(str, ev)) if ev else None), d))
+            res.violations.append(common.violation(o, f, fe, dict(cls=oname, rename=rename, tier=tier, hist_idx=hidx, ev_idx=ei, history=[list(map(str, e)) for e in hist], event=list(map(str, ev)) if ev else None), d))
 
     try:
         build(oname, rename, [])
@@ -755,6 +786,7 @@ def run_shard(shard, tier, seed):
 
 def replay(case):
     oname, rename = case["cls"], case["rename"]
+    TIER[0] = case.get("tier", "quick")
     hist = []
     for i in case["hist_idx"]:
         hist.append(build(oname, rename, hist).events()[i])
